@@ -127,6 +127,7 @@ pub fn gen_from_seed(gseed: u64, with_bug: bool, r: &mut Rng, scale: usize) -> B
                 "deflate-bomb" => 1,
                 "link-chain" => *r.pick(&[6usize, 7, 8, 9, 10, 11, 40, 41, 42, 43, 46, 47, 700, 702]),
                 "many-palette-packets" => *r.pick(&[3usize, 300, 2000]),
+                "userdata-props-deep" => *r.pick(&[1usize, 2, 3, 40, 41, 42, 4000, 4001, 4002]),
                 "bomb-with-links" => *r.pick(&[1usize, 2]),
                 _ => 1,
             }
@@ -652,6 +653,10 @@ fn special_items(ctx: &Ctx, prop: &str) -> Vec<(String, usize)> {
             for n in if q { vec![1000usize] } else { vec![1000, 65_535] } {
                 v.push(("many-tags".into(), n));
             }
+            // recursive structures inside one chunk (property maps): depth is file-controlled
+            for n in if q { vec![30_000usize, 30_001, 30_002, 300_000] } else { vec![3000, 3001, 3002, 30_000, 30_001, 30_002, 300_000, 300_001, 300_002, 2_000_001] } {
+                v.push(("userdata-props-deep".into(), n));
+            }
             for n in if q { vec![50usize] } else { vec![50, 2000] } {
                 v.push(("many-frames-high-layer".into(), n));
             }
@@ -684,7 +689,7 @@ fn special_items(ctx: &Ctx, prop: &str) -> Vec<(String, usize)> {
                 }
             }
             for b in spec::BUGS {
-                if !matches!(*b, "deep-nesting" | "deep-nesting-closed" | "many-layers" | "many-tags" | "many-frames-high-layer" | "deflate-bomb" | "tilemap-huge-extent" | "link-chain" | "bomb-with-links" | "tilemap-bomb-with-links" | "tileset-bomb" | "indexed-bomb-missing-index" | "many-palette-packets" | "chunk-size-boundary" | "zlib-split-a" | "zlib-split-b" | "palette-shift-a" | "palette-shift-b") {
+                if !matches!(*b, "deep-nesting" | "deep-nesting-closed" | "many-layers" | "many-tags" | "many-frames-high-layer" | "deflate-bomb" | "tilemap-huge-extent" | "link-chain" | "bomb-with-links" | "tilemap-bomb-with-links" | "tileset-bomb" | "indexed-bomb-missing-index" | "many-palette-packets" | "chunk-size-boundary" | "zlib-split-a" | "zlib-split-b" | "palette-shift-a" | "palette-shift-b" | "userdata-props-deep") {
                     for _ in 0..if q { 2 } else { 12 } {
                         v.push((b.to_string(), 1));
                     }
